@@ -3,8 +3,10 @@
 (M) TLC on specs/nonce/Nonce.tla (Validate*HMAC freshness + NonceCache.Track/sweep as written,
     half-second integer clock) with the REAL (tolerance, retention) pair of every site as
     constants and the clock restricted to the boundary grid; invariants AtMostOnce and
-    RejectOutside.  A violated invariant is a candidate, not a verdict.  The repaired
-    parameterisation (retention = 2*tolerance + 1s) is model-checked as the non-vacuity witness.
+    RejectOutside.  A violated invariant is a candidate, not a verdict.  On the current tree
+    (retention = 2*tolerance + 1s since 8359fcc) both hold over the whole graph; the as-written
+    variant (retention = tolerance) and retention 0.5 s short of the bound are negative controls
+    that TLC must reject.
 (G) the same module enumerates every bounded schedule (signed-timestamp offset x first receipt
     x replay times x an unrelated message driving the sweep) with the predicted decisions; the
     Go driver replays each one against the five real validate-then-track sites under the
@@ -99,19 +101,35 @@ def run(ctx):
     mc_notes = []
     for tol, ttl in pairs:
         key = "%d/%d" % (tol, ttl)
-        cfg = CFG % dict(shape, tol=tol, ttl=ttl, emit="FALSE", inv="AtMostOnce RejectOutside")
-        mc = ctx.tlc("nonce", "Nonce", "MC_site.cfg", files={"MC_site.cfg": cfg}, allow_violation=True, timeout=1500, workers=4)
-        # non-vacuity witness: with retention 2*tol+1s the same module satisfies both invariants
-        cfg_ok = CFG % dict(shape, tol=tol, ttl=4 * tol + 2, emit="FALSE", inv="AtMostOnce RejectOutside")
-        ok = ctx.tlc("nonce", "Nonce", "MC_rep.cfg", files={"MC_rep.cfg": cfg_ok}, coverage=True, timeout=1500, workers=4)
+        inv = "AtMostOnce RejectOutside"
+        cfg = CFG % dict(shape, tol=tol, ttl=ttl, emit="FALSE", inv=inv)
+        mc = ctx.tlc("nonce", "Nonce", "MC_site.cfg", files={"MC_site.cfg": cfg}, allow_violation=True, coverage=True, timeout=1500, workers=4)
+        note = {"pair": key, "as_configured": {"violated": mc.violated, "distinct": mc.distinct, "generated": mc.generated, "depth": mc.depth,
+                                               "actions_fired": {k: v[0] for k, v in mc.coverage.items()}}}
+        wit = mc
+        if mc.violated:
+            # the configured pair is a candidate for a replay; non-vacuity witness: retention 2*tol+1s satisfies both invariants
+            cfg_ok = CFG % dict(shape, tol=tol, ttl=4 * tol + 2, emit="FALSE", inv=inv)
+            wit = ctx.tlc("nonce", "Nonce", "MC_rep.cfg", files={"MC_rep.cfg": cfg_ok}, coverage=True, timeout=1500, workers=4)
+            note["retention_2tol_plus_1s"] = {"violated": None, "distinct": wit.distinct, "generated": wit.generated, "depth": wit.depth}
         for a in ("Deliver", "Other"):
-            if ok.coverage.get(a, (0, 0))[0] == 0:
+            if wit.coverage.get(a, (0, 0))[0] == 0:
                 raise InfraError("vacuous model: action %s never fired" % a)
-        mc_notes.append({"pair": key, "as_configured": {"violated": mc.violated, "distinct": mc.distinct, "generated": mc.generated, "depth": mc.depth},
-                         "retention_2tol_plus_1s": {"violated": None, "distinct": ok.distinct, "generated": ok.generated, "depth": ok.depth,
-                                                    "actions_fired": {k: v[0] for k, v in ok.coverage.items()}}})
-        ctx.log("TLC pair tol=%ds ttl=%dhs: as configured -> %s (%d distinct); 2*tol+1s -> holds (%d distinct)"
-                % (tol, ttl, "violates " + mc.violated if mc.violated else "holds", mc.distinct, ok.distinct))
+        # negative controls: the same module must REJECT retention == tolerance (the code before
+        # 8359fcc) and retention half a second short of 2*tol+1s (tightness of the bound)
+        ctl = {}
+        for name, nttl in (("retention_eq_tolerance", 2 * tol), ("retention_2tol_plus_half_second", 4 * tol + 1)):
+            if nttl >= ttl:
+                continue
+            ncfg = CFG % dict(shape, tol=tol, ttl=nttl, emit="FALSE", inv=inv)
+            nc = ctx.tlc("nonce", "Nonce", "MC_negctl.cfg", files={"MC_negctl.cfg": ncfg}, allow_violation=True, timeout=1500, workers=4)
+            if nc.violated != "AtMostOnce":
+                raise InfraError("negative control %s (tol=%ds ttl=%dhs) was not rejected by TLC: the model lost its teeth" % (name, tol, nttl))
+            ctl[name] = {"ttl_h": nttl, "violated": nc.violated, "distinct_at_stop": nc.distinct}
+        note["negative_controls_rejected"] = ctl
+        mc_notes.append(note)
+        ctx.log("TLC pair tol=%ds ttl=%dhs: as configured -> %s (%d distinct); negative controls rejected: %s"
+                % (tol, ttl, "violates " + mc.violated if mc.violated else "holds", mc.distinct, sorted(ctl) or "n/a"))
         gcfg = CFG % dict(shape, tol=tol, ttl=ttl, emit="TRUE", inv="EmitInv")
         g = ctx.tlc("nonce", "Nonce", "Gen_site.cfg", files={"Gen_site.cfg": gcfg}, timeout=2400, workers=4)
         if not g.traces:
